@@ -434,6 +434,12 @@ def _c18_check(reg, case):
         if m:
             return m
         run_batch()
+        # the folder is also read EARLY (a plot of the run so far): reading a checkpoint must not influence what a later
+        # read of the same folder returns
+        try:
+            _get_samplers_names(d, [int(x) for x in cal.method_samp])
+        except Exception:  # noqa: BLE001
+            pass
         for op, lu in case["steps"]:
             if op == "calibrate":
                 run_batch()
